@@ -2,4 +2,5 @@ SPECIFICATION Spec
 CONSTANTS
   MaxLen = 6
   Design = "pinned"
+  Alphabet = {"x", "n"}
 INVARIANT Refines
